@@ -93,6 +93,16 @@ def analyse_parser(ctx: Ctx, ci: ClassInfo, fi: FuncInfo) -> Dict[str, object]:
         ctx.require(len(hit) >= 1, f"{fi.qualname}: lookup loop has no returning path")
         bp = hit[0]
         sames = [k for k, v in bp.conds if v and k.startswith("same:")]
+        if not sames:
+            # a recognised NON-exact predicate (prefix / substring / regex) accepts strings that name no member
+            loose = [k for k, v in bp.conds if v and (k.startswith(("call:re.match(", "call:re.search(", "call:re.fullmatch(")) or ".startswith(" in k or ".endswith(" in k or k.startswith("in:"))]
+            if loose and not any(k.startswith("call:re.fullmatch(") for k in loose):
+                ctx.violate("C20-exact-match", f"{ci.name}.{fi.name}", "match-test",
+                            f"{ci.name}.{fi.name} selects a member with `{strip_v(loose[0]).split(':', 1)[1][:100]}` – a prefix / substring / regular-expression test, not equality with the member's value: "
+                            f"a member whose value extends another member's value parses to the wrong member and non-member strings are accepted", fi=fi,
+                            expected="<normalised input> == member value", found=strip_v(loose[0])[:140])
+                info.update({"lookup": "value", "needs_eq": False, "normalise": "none", "returns": "member", "ret_text": "?", "nonmember": ["raise"]})
+                return info
         ctx.require(len(sames) == 1, f"{fi.qualname}: the match test is not a single equality ({bp.cond_text()})")
         a, b = strip_v(sames[0][5:]).split("==")
         a, b = a.strip(), b.strip()
